@@ -31,7 +31,7 @@ InternalEnabled ==
     \/ pend # NoOp
     \/ (TimerDue /\ ~tick)
     \/ (pc = "select" /\ tick)
-    \/ (pc = "woken" /\ ~Spinning)
+    \/ (Awake /\ ~Spinning)
     \/ \E w \in Workers : wk[w].st \in {"recv", "ckpt", "park"}
 
 Internal ==
@@ -54,13 +54,17 @@ Lo == IF now > Back THEN now - Back ELSE 0
 \* an ending schedule ends a few seconds from now (`end` in CfgSpace is that distance); the real cron expression
 \* confines it to the first minute of model time, and a range "0-0/N" is not a range: 1 <= end <= 59
 Concrete(c) == IF c.k = "until" THEN [c EXCEPT !.end = now + c.end] ELSE c
+\* SchedOps holds the call as the client makes it (raw lastScheduled); a "unit" task is scheduled from the
+\* aligned time NewSchedule returns (Eff).  An ending schedule lives in the last minute of 2023 (end < Boundary)
+\* or in the first minute of 2024 (a range "0-0/N" is not a range: end > Boundary), see NextOcc.
 SchedOps == { op \in { SchedOp(id, Concrete(c), last) : id \in Ids, c \in CfgSpace, last \in Lo..(now + 1) } :
-                 op.c.k = "until" => op.c.end <= 59 }
+                 op.c.k = "until" => (op.c.end # Boundary /\ op.c.end <= Boundary + 59) }
+Eff(op) == IF op.c.k = "unit" THEN [op EXCEPT !.last = Align(op.c, op.last)] ELSE op
 
 \* RandomElement is re-evaluated at every use: bind it once through \E over a singleton
 Environment ==
     \/ \E op \in {RandomElement(SchedOps)} :
-         CallOK(op) /\ ApiCall(op)
+         CallOK(Eff(op)) /\ ApiCall(Eff(op))
          /\ Log([a |-> "Call", t |-> "S", id |-> op.id, k |-> op.c.k, e |-> op.c.e, o |-> op.c.o, end |-> op.c.end, last |-> op.last, pre |-> Pre])
     \/ \E id \in {RandomElement(Ids)} : \E coin \in {RandomElement(1..4)} :
          (active[id] \/ coin = 1)        \* releasing an id that is not scheduled is legal but rarely interesting
